@@ -235,20 +235,20 @@ def obligations(tier: str) -> List[dict]:
     else:
         for m in ('default', 'amr', 'noop', 'custom'):
             for lvl in (0, 1, 2):
-                deep(m, 3, 2, 3000, level=lvl)
-                deep(m, 4, 1, 3000, level=lvl)
-            for ops in OPS2:
-                add(m, 3, False, False, 3000, small=False, ops=ops)
-                add(m, 3, False, True, 1500, small=True, ops=ops)
+                deep(m, 3, 2, 1800, level=lvl)
+            deep(m, 4, 1, 1800)
             for op in (0, 1):
-                add(m, 3, True, True, 1500, ops=(op,))
+                add(m, 2, False, False, 900, ops=(op,))
+                add(m, 3, True, True, 1800, ops=(op,))
+            for ops in OPS2:
+                add(m, 3, False, m in ('default', 'amr'), 1800, small=True,
+                    ops=ops)
         for ops in OPS2:
+            add('default', 3, False, False, 1800, small=False, ops=ops)
             for op2 in (0, 1, 2):
                 if ops == (0, 0) and op2 == 2:
                     continue
-                add('default', 4, False, False, 3000, small=True,
-                    ops=ops + (op2,))
-                add('amr', 4, False, False, 3000, small=True,
+                add('default', 4, False, False, 1800, small=True,
                     ops=ops + (op2,))
     return obs
 
